@@ -144,3 +144,50 @@ __CPROVER_ensures(!__CPROVER_return_value || (mv_len0 == mv_len1 && (mv_k >= mv_
 __CPROVER_ensures(__CPROVER_return_value || mv_len0 != mv_len1 || mv_len0 > 0)
 ;
 #endif
+
+/* ---- SetFromString(s, first, afterLast): this becomes the substring [first, min(afterLast, |s|)) of s ---- */
+#define SUB_END(slen, a) (((a) < (slen)) ? (a) : (slen))
+#define SUB_LEN(slen, f, a) ((SUB_END(slen, a) > (f)) ? SUB_END(slen, a) - (f) : 0u)
+#ifdef MV_VARIANT_SETFROMSTRING
+struct status_t S_SetFromString(S *this, S *s, unsigned int firstChar, unsigned int afterLastChar)
+__CPROVER_requires(WF_S(this) && WF_S(s) && S_SNAP(this) && S_SNAP2(s) && (unsigned long)mv_j == (unsigned long)firstChar + mv_k)
+S_FRAME(this)
+__CPROVER_ensures(WF_S_POST(this))
+__CPROVER_ensures(!ST_OK(__CPROVER_return_value) || (S_LEN(this) == SUB_LEN(mv_len1, firstChar, afterLastChar) && (mv_k >= S_LEN(this) || S_AT(this, mv_k) == mv_d0)))
+__CPROVER_ensures(ST_OK(__CPROVER_return_value) || S_SAME(this))
+__CPROVER_ensures(S_LEN(s) == mv_len1 && (mv_j >= mv_len1 || S_AT(s, mv_j) == mv_d0))
+;
+#endif
+/* ---- the same with s == this (a String set to a substring of itself) ---- */
+#ifdef MV_VARIANT_SETFROMSTRING_SELF
+struct status_t S_SetFromString(S *this, S *s, unsigned int firstChar, unsigned int afterLastChar)
+__CPROVER_requires(WF_S(this) && s == this && S_SNAP(this) && (unsigned long)mv_j == (unsigned long)firstChar + mv_k && (mv_j >= S_LEN(this) || S_AT(this, mv_j) == mv_d0))
+S_FRAME(this)
+__CPROVER_ensures(WF_S_POST(this))
+__CPROVER_ensures(!ST_OK(__CPROVER_return_value) || (S_LEN(this) == SUB_LEN(mv_len0, firstChar, afterLastChar) && (mv_k >= S_LEN(this) || S_AT(this, mv_k) == mv_d0)))
+__CPROVER_ensures(ST_OK(__CPROVER_return_value) || S_SAME(this))
+;
+#endif
+/* ---- Reverse(): character k becomes character len-1-k ---- */
+#ifdef MV_VARIANT_REVERSE
+void S_Reverse(S *this)
+__CPROVER_requires(WF_S(this) && S_SNAP(this) && (mv_k >= mv_len0 || mv_j == mv_len0 - 1 - mv_k) && (mv_j >= S_LEN(this) || S_AT(this, mv_j) == mv_d0))
+S_FRAME(this)
+__CPROVER_ensures(WF_S_POST(this))
+__CPROVER_ensures(S_LEN(this) == mv_len0 && (mv_k >= mv_len0 || S_AT(this, mv_k) == mv_d0))
+;
+#endif
+/* ---- Replace(find, with, maxCount, fromIndex): only instances of `find` at or after fromIndex change, to `with`, at most maxCount of them ---- */
+#ifdef MV_VARIANT_REPLACE_CHAR
+unsigned int S_Replace_char(S *this, char findChar, char replaceChar, unsigned int maxReplaceCount, unsigned int fromIndex)
+__CPROVER_requires(WF_S(this) && S_SNAP(this))
+S_FRAME(this)
+__CPROVER_ensures(WF_S_POST(this) && S_LEN(this) == mv_len0)
+__CPROVER_ensures(__CPROVER_return_value <= maxReplaceCount && __CPROVER_return_value <= mv_len0)
+__CPROVER_ensures(mv_k >= mv_len0 || S_AT(this, mv_k) == mv_c0 || (S_AT(this, mv_k) == replaceChar && mv_c0 == findChar && mv_k >= fromIndex && __CPROVER_return_value > 0))
+/* the first candidate is always replaced when there is any quota (embedded NULs end the scan, as in the code's C-string walk) */
+__CPROVER_ensures(!(mv_k == fromIndex && mv_k < mv_len0 && mv_c0 == findChar && mv_c0 != 0 && maxReplaceCount > 0) || S_AT(this, mv_k) == replaceChar)
+/* same characters: nothing to do */
+__CPROVER_ensures(findChar != replaceChar || __CPROVER_return_value == 0)
+;
+#endif
